@@ -126,6 +126,72 @@ def showResult (init : List (Path × Node)) (st : St) : String :=
   s!"replies={commaJoin (st.out.reverse.map showReply)} touched={commaJoin (touched.map hexOfPath)} " ++
   s!"ub={if st.ub then 1 else 0} fs={commaJoin fsOut}"
 
+/-! coverage of the receiver automaton: which branches a run takes (reported by the checks as evidence;
+the states are produced by `step` itself, the tags only look at them) -/
+
+def phaseName : Phase → String
+  | .start => "start" | .line _ _ => "line" | .data .. => "data" | .resp _ _ => "resp" | .done => "done"
+
+def addTags (l : List String) (ts : List String) : List String :=
+  ts.foldl (fun l t => if l.contains t then l else t :: l) l
+
+def newReplyTags (st st' : St) : List String :=
+  (st'.out.take (st'.out.length - st.out.length)).map fun r => "re:" ++ showReply r
+
+/-- a complete record is about to be handled in state `st` -/
+def recTags (o : Opts) (st : St) (line : Str) (ch : UInt8) : List String :=
+  match st.stack with
+  | [] => ["rec:no-level"]
+  | f :: _ =>
+    match classify line ch with
+    | .msg => ["rec:msg"]
+    | .stop => ["rec:stop"]
+    | .exit => [if st.stack.length ≤ 1 then "rec:E-top" else "rec:E-nested",
+                if st.stack.length > 1 && (st.stack.getD 1 f).setimes then "E:sets-times" else "E:no-times"]
+    | .bad _ => ["rec:bad"]
+    | .timesBad _ => ["rec:T-bad"]
+    | .times _ _ => [if f.setimes then "rec:T-twice" else "rec:T"]
+    | .ctl isDir _ size name =>
+      if !nameOk o.rule name then ["rec:name-rejected"]
+      else
+        let np := if f.targisdir then joinName f.targ name else f.targ
+        let ex := match stat st.fs o.cwd np with
+          | some (_, .dir ..) => "on-dir"
+          | some (_, .file ..) => "on-file"
+          | none => "new"
+        [(if isDir then "D:" else "C:") ++ ex, if f.targisdir then "targ:dir" else "targ:name",
+         if f.setimes then "ctl:with-times" else "ctl:no-times", s!"depth:{min st.stack.length 4}"] ++
+        (if isDir then [] else
+          [if size < 0 then "size:<0" else if size = 0 then "size:0"
+           else if size.toNat < BUFSZ then "size:<buf" else if size.toNat ≤ o.cnt then "size:<=cnt" else "size:>cnt"])
+
+def covStep (o : Opts) (acc : St × List String) (b : UInt8) : St × List String :=
+  let st := acc.1
+  let st' := step o st b
+  match st.phase with
+  | .data _ _ _ left amt count _ _ _ =>
+    if 1 < amt then (st', acc.2)
+    else (st', addTags acc.2 ([if count == o.cnt then "data:flush" else "data:block"] ++
+            (if 1 < left then [] else ["data:end>" ++ phaseName st'.phase]) ++ newReplyTags st st'))
+  | .line cp bufRev =>
+    if cp + 1 < BUFSZ - 1 && b ≠ cNl then (st', acc.2)
+    else (st', addTags acc.2 (recTags o st (b :: bufRev).reverse b ++
+            (if b ≠ cNl then ["line:buffer-full"] else []) ++ ["line>" ++ phaseName st'.phase] ++ newReplyTags st st'))
+  | .start => if b = cNl then (st', addTags acc.2 (["start:newline"] ++ newReplyTags st st')) else (st', acc.2)
+  | .resp _ wr =>
+    (st', addTags acc.2 ([if b = 0 then "resp:ok" else "resp:bad",
+                          match wr with | .no => "wr:no" | .yes => "wr:yes" | .displayed => "wr:displayed",
+                          "resp>" ++ phaseName st'.phase] ++ newReplyTags st st'))
+  | .done => (st', addTags acc.2 ["done:input-ignored"])
+
+/-- `run` with the branch tags -/
+def covRun (o : Opts) (fs : FS) (stream : Str) : St × List String :=
+  let st0 := enter o (St.init fs) o.dest
+  let t0 := addTags [] (["enter>" ++ phaseName st0.phase] ++ newReplyTags (St.init fs) st0)
+  let r := stream.foldl (covStep o) (st0, t0)
+  let fin := finish o r.1
+  (fin, addTags r.2 (["eof:" ++ phaseName r.1.phase, s!"eof-depth:{min r.1.stack.length 4}"] ++ newReplyTags r.1 fin))
+
 /-- pre-order tree tokens; returns siblings up to a closing `)` (consumed) or the end -/
 def parseTrees : Nat → List String → Option (List (Str × Tree) × List String)
   | 0, _ => none
@@ -171,7 +237,9 @@ def handle (line : String) : String :=
   match Driver.words line with
   | "sink" :: p :: y :: um :: cnt :: rule :: dch :: fsz :: cwd :: dest :: stream :: fsw =>
     match mkOpts p y um cnt rule dch fsz cwd dest, Hex.decode stream, parseEntries fsw with
-    | some o, some stream, some es => showResult es (run o (fsOf es) stream)
+    | some o, some stream, some es =>
+      let r := covRun o (fsOf es) stream
+      showResult es r.1 ++ " cov=" ++ commaJoin r.2.reverse
     | _, _, _ => "bad-op"
   | "rt" :: p :: y :: um :: cnt :: rule :: dch :: fsz :: cwd :: dest :: rev :: host :: ssec :: sfix :: nfs :: rest =>
     match mkOpts p y um cnt rule dch fsz cwd dest, Hex.decode host, nfs.toNat? with
@@ -181,8 +249,9 @@ def handle (line : String) : String :=
         let stream := send { preserve := o.preserve, reverse := flag rev, host := host, subsec := flag ssec,
                              sentinelFix := flag sfix } srcs
         let shown := if stream.length ≤ 30000 then Hex.encode stream else "~"
+        let r := covRun o (fsOf es) stream
         s!"nent={(expandAll srcs).length} c2slen={stream.length} c2scrc={(crc32 stream).toNat} c2s={shown} " ++
-          showResult es (run o (fsOf es) stream)
+          showResult es r.1 ++ " cov=" ++ commaJoin r.2.reverse
       | _, _ => "bad-op"
     | _, _, _ => "bad-op"
   | "sess" :: p :: y :: um :: cnt :: rule :: dch :: fsz :: cwd :: dest :: rev :: host :: ssec :: sfix :: skipref :: nfs :: rest =>
